@@ -289,6 +289,15 @@ class Model:
         if solver == "auto":
             solver = self._choose_solver()
 
+        if hints:
+            # Hints only guide the search: if following them leads nowhere, search without them
+            result = self._solve_with(solver, hints, solution_limit, kwargs)
+            if result.status == Status.INFEASIBLE:
+                return self._solve_with(solver, None, solution_limit, kwargs)
+            return result
+        return self._solve_with(solver, None, solution_limit, kwargs)
+
+    def _solve_with(self, solver: str, hints, solution_limit: int, kwargs: dict) -> Result:
         if solver == "dfs":
             return self._solve_dfs(hints=hints, solution_limit=solution_limit, **kwargs)
         elif solver == "sat":
